@@ -283,6 +283,8 @@ ChildPlan World::OnSpawn(Kernel& kk, const std::string& cmd, bool console) {
   }
   std::string rsp_content = sc.RspContent(s);
   std::vector<std::string> hidden = ActiveHidden(sc, s, get);
+  for (auto& in : EffectiveInputs(id)) rec.in_mtime_at_start[in] = kk.Mtime(in);
+  for (auto& h2 : hidden) rec.in_mtime_at_start[h2] = kk.Mtime(h2);
   if (getenv("SIM_DEBUG_READSET")) {
     std::string m = "[" + label + "] statement " + std::to_string(id) + " reads:";
     for (auto& kv : snap) m += " " + kv.first + "=" + JsonEscape(kv.second);
@@ -508,6 +510,7 @@ InvRecord World::RunInvocation(const InvPlan& plan) {
   for (auto& kv : k.fs.nodes)
     if (kv.second->kind == Inode::kFile) r.fs_before[kv.first] = std::make_pair(FsHash(kv.second->data), kv.second->mtime);
 
+  ComputeExpectedRun(plan);
   cur = &r;
   epoch = 0;
   tokens_held = 0;
